@@ -38,3 +38,30 @@ theorem frame_valid (u : Udp4) (h : WfU u) : validFrame u (frame u) = none := by
   simp [g16, hip, hudp, e1, e2, e3, e4]
 
 end Erbium.Frame
+
+namespace Erbium.Frame
+
+/-- every element of the frame is an octet: no field of the Ethernet, IPv4 or UDP header is written
+    from a value that does not fit it (lengths are < 65536 for payloads ≤ 65507, both checksums are
+    16-bit by `finishNetsum_lt`, `be16` splits into two octets). -/
+theorem frame_octets (u : Udp4) (h : WfU u) (hsm : ∀ b ∈ u.smac, b < 256) (hdm : ∀ b ∈ u.dmac, b < 256) :
+    ∀ b ∈ frame u, b < 256 := by
+  intro b hb
+  simp only [frame, ethHeader, ipHeader, udpHeader, List.mem_append] at hb
+  rcases hb with (((((hb | hb) | hb) | (((((hb | hb) | hb) | hb) | hb) | hb)) | (((hb | hb) | hb) | hb)) | hb)
+  · exact hdm b hb
+  · exact hsm b hb
+  · simp at hb; omega
+  · simp at hb; omega
+  · exact be16_lt _ b hb
+  · simp at hb; omega
+  · exact be16_lt _ b hb
+  · exact h.src.2 b hb
+  · exact h.dst.2 b hb
+  · exact be16_lt _ b hb
+  · exact be16_lt _ b hb
+  · exact be16_lt _ b hb
+  · exact be16_lt _ b hb
+  · exact h.payload.2 b hb
+
+end Erbium.Frame
